@@ -105,6 +105,13 @@ func (n *decoratorNode) Call(s containerStore) (err error) {
 	}
 
 	n.state = decoratorOnStack
+	defer func() {
+		// A decorator that did not run to completion is not done: it
+		// must be applied again the next time its key is requested.
+		if n.state == decoratorOnStack {
+			n.state = decoratorReady
+		}
+	}()
 
 	if err := shallowCheckDependencies(s, n.params); err != nil {
 		return errMissingDependencies{
